@@ -12,7 +12,7 @@ import (
 )
 
 func pt(op string) {
-	if s := vsched.Cur(); s != nil {
+	if s := vsched.Cur(); s != nil && s.OnActor() != nil {
 		s.Point(op, "", nil)
 	}
 }
